@@ -1,5 +1,6 @@
 import LyModel.Valid.SpecDefaults
 import LyModel.Valid.Hist
+import LyModel.Valid.Ops
 /-! driver ops of component `valid` (C02, C07): see harness/api_val.c and harness/api_norm.c for the protocol -/
 namespace LyModel.Valid.Drv
 open LyModel LyModel.Tree
@@ -51,6 +52,36 @@ def handle (op : String) (args : List String) : String :=
         let ks := violations X (VOpts.ofNat on) (canon X.base (heightL f + 1) (freshL X.base f))
         "ok " ++ toString ks.eraseDups.length ++ " " ++ " ".intercalate (ks.eraseDups.map (·.name))
       | _, _ => "err BadTree"
+  | "opsvariant", [dsl, xdsl] =>
+    -- the all-state variant of the schema as DSL (flat table), and whether its tree view agrees with that table row by row
+    withX dsl xdsl fun X =>
+      let V := stateVariant X
+      let same := (flatL V.top).map (fun p => snodeDsl p.2) == V.base.nodes.map snodeDsl && (flatL V.top).map (·.1) == List.range V.base.nodes.length
+      "ok " ++ Hex.enc (bytesOfString (schemaDsl V.base)) ++ " " ++ Hex.enc (bytesOfString ("\n".intercalate (V.uniques.map fun u =>
+        "unique " ++ toString u.1 ++ " " ++ ",".intercalate (u.2.map toString)))) ++ " " ++ b01 same
+  | "opsspec", [dsl, xdsl, dump] =>
+    -- content of an operation, given the ORIGINAL schema: the violated constraint families of the specification (all-state variant,
+    -- no option), then `|`, then per route (rpc input, reply output, notification) what the model of `lyd_validate_op` says for the
+    -- source tree at hand (`OpFacts.current`): `V`, `I:<kind of the first error>`, or `B:<build error>`, then `|` and the violated
+    -- families of the schema itself
+    withX dsl xdsl fun X =>
+      match forestOfHex X.base dump with
+      | some f =>
+        let V := stateVariant X
+        let ks := opsViolations X (canon V.base (heightL f + 1) (freshL V.base f))
+        let route := fun (r : Route) =>
+          let Y := opSchema OpFacts.current X
+          match buildL Y.base f with
+          | some e => r.name ++ "=B:" ++ e.name
+          | none =>
+            match (opsValidate OpFacts.current r X (canon Y.base (heightL f + 1) (freshL Y.base f))).errs with
+            | [] => r.name ++ "=V"
+            | e :: _ => r.name ++ "=I:" ++ e.kind.name
+        -- last: the violations of the schema itself (the same instance as datastore content), for the counters of the check
+        let k0 := violations X {} (canon X.base (heightL f + 1) (freshL X.base f))
+        "ok " ++ toString ks.eraseDups.length ++ String.join (ks.eraseDups.map (" " ++ ·.name)) ++ " | " ++ route .input ++ " " ++ route .output
+          ++ " " ++ route .notif ++ " | " ++ toString k0.eraseDups.length ++ String.join (k0.eraseDups.map (" " ++ ·.name))
+      | none => "err BadTree"
   | _, _ => "err BadOp"
 
 end LyModel.Valid.Drv
